@@ -114,27 +114,13 @@ def rule_one_escaper(model):
     mv = model.module('DT_Var')
     for tbl, key in (('modifiers', 'html_quote'),
                      ('special_formats', 'html-quote')):
-        t = model.resolve_global(mv, 'html_quote')
-        ok = t and t[0] == 'func' and t[1] is esc
-        found = False
-        for v in mv.globals.get(tbl, []):
-            if isinstance(v, (ast.Tuple, ast.List)):
-                found = found or any(
-                    (isinstance(e, ast.Name) and e.id == 'html_quote') or
-                    (isinstance(e, ast.Tuple) and len(e.elts) == 2 and
-                     isinstance(e.elts[1], ast.Name) and
-                     e.elts[1].id == 'html_quote' and
-                     isinstance(e.elts[0], ast.Constant) and
-                     e.elts[0].value == 'html_quote') for e in v.elts)
-            elif isinstance(v, ast.Dict):
-                for k, e in zip(v.keys, v.values):
-                    if isinstance(k, ast.Constant) and k.value == key:
-                        found = isinstance(e, ast.Name) and \
-                            e.id == 'html_quote'
-                        if not found:
-                            t2 = model.resolve_name_expr(mv, e)
-                            found = bool(t2 and t2[0] == 'func'
-                                         and t2[1] is esc)
+        from .. import tables
+        ok = True
+        ents = tables.func_entries(model, mv, tbl)
+        if ents is None:
+            raise AnalysisError(f'DT_Var.{tbl}: table not understood')
+        found = any(k == key and res and res[0] == 'func' and res[1] is esc
+                    for k, _, res in ents)
         r.instance(f'DT_Var:{tbl}', f'{key} -> html_quote',
                    'ok' if ok and found else 'MISSING')
         if not (ok and found):
